@@ -121,7 +121,13 @@ fn metamorphic(ctx: &Ctx, conv: &Conv, a: &Arr3, case: &Value) {
     }
     let _ = conv;
     let mut variants: Vec<(String, Arr3)> = vec![];
-    for (sc, sh) in [(2.0f32, 0.0f32), (0.25, 0.0), (-3.0, 0.0), (1.0, 10.0), (-1.0, -7.0)] {
+    for (sc, sh) in [(2.0f32, 0.0f32), (0.25, 0.0), (-3.0, 0.0), (1.0, 10.0), (-1.0, -7.0), (2f32.powi(-12), 0.0), (2f32.powi(-20), 0.0), (2f32.powi(-40), 0.0), (2f32.powi(14), 0.0), (2f32.powi(40), 0.0)] {
+        let maxabs = a.iter().flatten().flatten().fold(0.0f64, |m, x| m.max(x.abs() as f64));
+        let (new_max, new_sd) = ((sc.abs() as f64) * maxabs + sh.abs() as f64, (sc.abs() as f64) * st0.w.sqrt());
+        if new_max > 1e12 || new_sd < 1e-12 || new_max / new_sd > 3e3 {
+            ctx.outcome("metamorphic variant skipped (not representable in f32 statistics)", 1);
+            continue;
+        }
         variants.push((format!("affine x->{sc}x+{sh}"), a.iter().map(|ch| ch.iter().map(|r| r.iter().map(|x| sc * x + sh).collect()).collect()).collect()));
     }
     let perms: Vec<Vec<usize>> = if c <= 3 { all_perms(c) } else { vec![(0..c).rev().collect()] };
